@@ -1,16 +1,18 @@
 /-
 C08 — character maps.  Executable model of
 
-* write-fonts/src/tables/cmap.rs : `Cmap::from_mappings` (sort / dedup / conflict detection),
-  `Format4SegmentComputer::{new, make_segment, next_possible_segment, compute}`,
+* write-fonts/src/tables/cmap.rs : `Cmap::from_mappings` (sort / dedup / conflict detection, which
+  subtables are emitted), `Format4SegmentComputer::{new, make_segment, next_possible_segment, compute}`,
   `Format4Segment::{len, cost, can_combine, should_combine, combine}`,
-  `CmapSubtable::create_format_4` (idDelta mod 65536, idRangeOffset arithmetic),
-  `CmapSubtable::create_format_12`, `Cmap4::compute_length`
+  `CmapSubtable::create_format_4` (idDelta mod 65536 — after fix 51d6e70 `delta as u16 as i16` —,
+  idRangeOffset arithmetic, the final 0xFFFF segment), `CmapSubtable::create_format_12`,
+  `Cmap4::compute_length` (16-bit length)
 * read-fonts/src/tables/cmap.rs : `Cmap4::{map_codepoint, lookup_glyph_id, code_range}`,
-  `Cmap4Iter`, `Cmap12::{map_codepoint, lookup_glyph_id, group}`, `Cmap12Iter` (with limits),
-  `Cmap::map_codepoint`, `Cmap14::map_variant`, `Cmap14Iter`
+  `Cmap4Iter`, `Cmap12::{map_codepoint, lookup_glyph_id, group}` (after fix 692a13d: `max_char`
+  inclusive), `Cmap12Iter` (with limits), `Cmap::map_codepoint`, `Cmap14::map_variant` (core
+  `binary_search_by` = `Layout.binarySearchBy`), `Cmap14Iter`
 * skrifa/src/charmap.rs : `MappingSelection::new`, `CodepointSubtable::{map, map_impl}`,
-  `Mappings::next` (notdef filtering)
+  `Mappings::next` (notdef filtering), `Charmap::{map, mappings}` on the table `from_mappings` builds
 
 Code points, glyph ids and indices are `Nat`; signed deltas are `Int`.  A Rust panic (failed
 `assert!`, `unwrap` of a failed conversion) is the outcome `trap`.
